@@ -1,6 +1,6 @@
 (* C15/Props.v -- the property theorems, and nothing else. *)
 From Coq Require Import ZArith List Lia Bool QArith.
-From PV Require Import Base.NpList Base.NpSearch C15.Model C15.Spec C15.Proofs C15.Proofs2 C15.Proofs3.
+From PV Require Import Base.NpList Base.NpSearch C15.Model C15.Spec C15.Proofs C15.Proofs2 C15.Proofs3 C15.Proofs4.
 Import ListNotations.
 Open Scope Z_scope.
 
@@ -107,6 +107,33 @@ Theorem C15_rejects_unsorted : forall t labels ids rate bin win symm,
 Proof. exact correlograms_unsorted. Qed.
 Print Assumptions C15_rejects_unsorted.
 
+(* ---- the boolean checkers that Corr.v evaluates on phylib's observed arrays are sound for the Spec ----
+   (so a run without code 21/22/23/24/26 certifies, case by case, the declarative statements on the
+   arrays phylib actually returned, not only their agreement with the model) *)
+Theorem C15_checker_onesided : forall (t labels ids : list Z) (bs W : Z) (C : cube),
+  length labels = length t -> 0 <= W ->
+  onesided_b t labels ids bs W C = true -> OneSided_Spec t labels ids bs W C.
+Proof. exact onesided_b_sound. Qed.
+Print Assumptions C15_checker_onesided.
+
+Theorem C15_checker_sym : forall (t labels ids : list Z) (bs W : Z) (S' : cube),
+  length labels = length t -> 0 <= W ->
+  let E := expected_cube t labels ids bs W in
+  let nc := length ids in let w := Z.to_nat W in
+  shape_b nc nc (2 * w + 1) S' = true -> sym_pos_b E S' nc w = true -> sym_mirror_b S' nc = true ->
+  sym_centre_b E S' nc w = true ->
+  OneSided_Spec t labels ids bs W E /\ Sym_Spec nc w E S'.
+Proof.
+  intros t labels ids bs W S' Hlen HW E nc w H1 H2 H3 H4.
+  split; [now apply expected_cube_spec|now apply sym_checks_sound].
+Qed.
+Print Assumptions C15_checker_sym.
+
+Theorem C15_checker_rate : forall (labels ids : list Z) (bin d : Q) (R : list (list Q)),
+  rate_b labels ids bin d R = true -> Rate_Spec labels ids bin d R.
+Proof. exact rate_b_sound. Qed.
+Print Assumptions C15_checker_rate.
+
 (* ---- non-vacuity: concrete, non-trivial instances ---- *)
 (* 5 spikes, two at the same sample, ids in the caller's order [7; 4; 9; 1] (7 and 9 have no spikes),
    binsize 1, W = 2 *)
@@ -151,3 +178,7 @@ Example C15_ex_rate :
 Proof. vm_compute. reflexivity. Qed.
 Example C15_ex_unsorted : correlograms [0; 2; 1] [1; 1; 1] None 1 1 2 false = None /\ ~ sortedZ [0; 2; 1].
 Proof. split; [vm_compute; reflexivity|]. rewrite <- sortedZb_spec. vm_compute. discriminate. Qed.
+Example C15_ex_checker :
+  onesided_b [0; 0; 1; 1; 2] [4; 1; 1; 4; 4] [1; 4] 1 2 [ [[0;1;0]; [1;2;1]]; [[1;1;0]; [0;2;1]] ] = true /\
+  onesided_b [0; 0; 1; 1; 2] [4; 1; 1; 4; 4] [1; 4] 1 2 [ [[0;1;0]; [1;2;1]]; [[1;1;0]; [0;2;2]] ] = false.
+Proof. vm_compute. tauto. Qed.
